@@ -479,6 +479,68 @@ def enumerate_v2():
     return n, None
 
 
+def native_fold_sweep(tier):
+    """BOUNDED native sweep of the real registry.get over scratch directories: every assignment of one value out of
+    {absent, scalar, list, three dicts} to the same key - at top level and one level down - in 3 (quick) / 3 and 4
+    (thorough) files whose names sort differently by name and by stem, and 2-3 list files (one of them v2), against
+    the independent name-ordered left fold.  Catches a composition that is not a LEFT fold (n-way merge: scalar ->
+    dict -> dict loses the middle file) whatever shape the code has - the contracts of merge_dicts / get need not
+    apply to it (round 6, C18)."""
+    from pathlib import Path
+    from schwifty import registry
+    choices = [None, 7, [1], {"x": 1}, {"y": 2}, {"x": 3, "z": {"q": 1}}]
+    names = ["generated.json", "overwrite-local.json", "overwrite.json", "zz_user.json"]
+    n = 0
+    saved_files = registry.files
+    d = tempfile.mkdtemp(prefix="c18fold")
+    probe = os.path.join(d, "probe_registry")
+    try:
+        registry.files = lambda pkg: Path(d)
+        for k in ([3, 4] if tier == "thorough" else [3]):
+            for vals in itertools.product(choices, repeat=k):
+                shutil.rmtree(probe, ignore_errors=True)
+                os.makedirs(probe)
+                for name, v in zip(names[:k], vals):
+                    doc = {"keep_" + name[:2]: name, "n": {"other": name}}
+                    if v is not None:
+                        doc["K"] = copy.deepcopy(v)
+                        doc["n"]["K"] = copy.deepcopy(v)
+                    json.dump(doc, open(os.path.join(probe, name), "w"))
+                want = fold_registry(probe)
+                registry._registry.pop("probe", None)
+                try:
+                    got = registry.get("probe")
+                except Exception as ex:  # noqa: BLE001
+                    got = f"raised {type(ex).__name__}: {ex}"
+                n += 1
+                if got != want:
+                    return n, dict(files=dict(zip(names[:k], [repr(v) for v in vals])), got=repr(got)[:300],
+                                   expected=repr(want)[:300])
+        v2 = {"expand_from": "bank_codes", "expand_into": "bank_code",
+              "entries": [{"name": "Z", "bic": "", "bank_codes": ["1", "2"]}, {"name": "Y", "bic": "B", "bank_codes": []}]}
+        for files_ in ([("b.json", [{"a": 1}]), ("a.json", [{"a": 2}, {"a": 3}])],
+                       [("manual_x.json", [{"a": 1}]), ("manual_x-local.json", []), ("zz.v2.json", v2)],
+                       [("a.v2.json", v2), ("b.json", [{"a": 1}]), ("c.v2.json", v2)]):
+            shutil.rmtree(probe, ignore_errors=True)
+            os.makedirs(probe)
+            for name, doc in files_:
+                json.dump(doc, open(os.path.join(probe, name), "w"))
+            want = fold_registry(probe)
+            registry._registry.pop("probe", None)
+            try:
+                got = registry.get("probe")
+            except Exception as ex:  # noqa: BLE001
+                got = f"raised {type(ex).__name__}: {ex}"
+            n += 1
+            if got != want:
+                return n, dict(files=[f for f, _ in files_], got=repr(got)[:300], expected=repr(want)[:300])
+        return n, None
+    finally:
+        registry.files = saved_files
+        registry._registry.pop("probe", None)
+        shutil.rmtree(d, ignore_errors=True)
+
+
 def strip_regex(table):
     return {cc: {k: v for k, v in s.items() if k != "regex"} for cc, s in table.items()}
 
@@ -586,6 +648,11 @@ def main(seed, tier):
     obls.append(dict(name=f"parse_v2 == expansion spec on {n_v2} enumerated documents",
                      status="discharged" if wit2 is None else "refuted", backend="cpython (bounded enumeration)",
                      secs=0.0, witness=wit2, detail="" if wit2 is None else f"replayed natively: {wit2}", kind="bounded"))
+    n_fs, wit3 = native_fold_sweep(tier)
+    obls.append(dict(name=f"registry.get == name-ordered left fold on {n_fs} scratch directories (every value kind per file "
+                          "for one key, top level and nested; list and v2 files)",
+                     status="discharged" if wit3 is None else "refuted", backend="cpython (bounded enumeration)",
+                     secs=0.0, witness=wit3, detail="" if wit3 is None else f"replayed natively: {wit3}", kind="bounded"))
     bad, n_cc, n_bank = bundled_files_check()
     obls.append(dict(name=f"registry.get == name-ordered fold of the bundled files ({n_cc} countries, {n_bank} bank entries)",
                      status="discharged" if not bad else "refuted", backend="cpython (exhaustive on bundled files)",
